@@ -30,7 +30,9 @@ def describe_exc(exc):
     if isinstance(exc, ProgError):
         return ['ProgError', exc.tag]
     if isinstance(exc, plumpy.KilledError):
-        return ['KilledError', str(exc)]
+        # (the message is a mapping: its text must not depend on the order of the keys, which a YAML round trip changes)
+        arg = exc.args[0] if exc.args else None
+        return ['KilledError', str(dict(sorted(arg.items()))) if isinstance(arg, dict) else str(exc)]
     return [type(exc).__name__, str(exc)[:200]]
 
 
